@@ -318,7 +318,7 @@ class Engine:
         if s.startswith('b"'): return Ref([Str(eval(s))], 0)
         m = re.fullmatch(r"'(.)'", s)
         if m: return ord(m.group(1))
-        m = re.fullmatch(r'core::num::<impl ([ui])(\d+|size)>::(MAX|MIN)', s)
+        m = re.fullmatch(r'(?:core::num::<impl )?([ui])(\d+|size)>?::(MAX|MIN)', s)
         if m:
             bits = 64 if m.group(2) == 'size' else int(m.group(2))
             if m.group(1) == 'u': return (1 << bits) - 1 if m.group(3) == 'MAX' else 0
@@ -691,7 +691,7 @@ class Engine:
         if key in self._res_cache: return self._res_cache[key]
         r = self._resolve(c, args)
         # runtime-dispatched (generic param) results are not cached
-        if not re.match(r'<[A-Z]\w{0,2} as ', c): self._res_cache[key] = r
+        if not re.match(r'<([A-Z]\w{0,2}|impl [^>]*) as ', c): self._res_cache[key] = r
         return r
 
     def _resolve(self, c, args):
@@ -712,9 +712,13 @@ class Engine:
             xs = type_key(x)
             if re.fullmatch(r'[A-Z]\w{0,2}', xs) and xs in self.env_stack[-1] and not re.fullmatch(r'[A-Z]\w{0,2}', type_key(self.env_stack[-1][xs])):
                 return self._find_impl(meth, trait, type_key(self.env_stack[-1][xs]), len(args))
-            if re.fullmatch(r'[A-Z]\w{0,2}', xs) and args:           # generic param: dispatch on runtime type
+            if (re.fullmatch(r'[A-Z]\w{0,2}', xs) or xs.startswith('impl ')) and args:           # generic param / `impl Trait` argument: dispatch on runtime type
                 v = deref(args[0]); xs = getattr(v, 'ty', None)
                 if xs is None: return None
+                if isinstance(args[0], Ref) and isinstance(args[0].get(), Ref):              # &&T receiver (blanket `impl Trait for &T`): same method on T
+                    r0 = args[0]
+                    while isinstance(r0.get(), Ref): r0 = r0.get()
+                    args[0] = r0
             targ = re.search(r'<(.*)>$', m.group(2).strip())
             is_std = xs.startswith(('std::', 'core::', 'alloc::')) or xs in ('str', 'String', 'usize', 'u8', 'u32', 'u64', 'i32', 'i64', 'bool', 'char') or xs.startswith('[')
             if is_std and not targ: return None                                  # std type, trait without type argument: std's own impl (a model)
@@ -824,6 +828,6 @@ def split_path(p):
     res = []
     for x in out:
         if not x: continue
-        if x.startswith('<') and res and not x.startswith('<impl at') and ' as ' not in x: res[-1] += '::' + x
+        if x.startswith('<') and res and not x.startswith('<impl at'): res[-1] += '::' + x
         else: res.append(x)
     return res
